@@ -211,25 +211,56 @@ theorem construct_cylindrical_ok (radius : Radius K) (zlo zhi : K) (shape : List
     | ok u =>
       rw [hcs] at h
       simp only at h
-      cases hcr : checkRadius radius with
-      | error e => rw [hcr] at h; cases h
-      | ok b =>
-        rw [hcr] at h
+      by_cases hz : zlo < zhi
+      · simp only [hz, not_true_eq_false, if_false] at h
+        cases hcr : checkRadius radius with
+        | error e => rw [hcr] at h; cases h
+        | ok b =>
+          rw [hcr] at h
+          cases h
+          have hn := (checkShape_ok [n] hcs).2 n (by simp)
+          exact ⟨n, n, b, Or.inr ⟨rfl, rfl⟩, hn, hn, rfl, rfl⟩
+      · simp only [hz, not_false_eq_true, if_true] at h
         cases h
-        have hn := (checkShape_ok [n] hcs).2 n (by simp)
-        exact ⟨n, n, b, Or.inr ⟨rfl, rfl⟩, hn, hn, rfl, rfl⟩
   · cases hcs : checkShape [n, m] with
     | error e => rw [hcs] at h; cases h
     | ok u =>
       rw [hcs] at h
       simp only at h
-      cases hcr : checkRadius radius with
-      | error e => rw [hcr] at h; cases h
-      | ok b =>
-        rw [hcr] at h
+      by_cases hz : zlo < zhi
+      · simp only [hz, not_true_eq_false, if_false] at h
+        cases hcr : checkRadius radius with
+        | error e => rw [hcr] at h; cases h
+        | ok b =>
+          rw [hcr] at h
+          cases h
+          have hp := (checkShape_ok [n, m] hcs).2
+          exact ⟨n, m, b, Or.inl rfl, hp n (by simp), hp m (by simp), rfl, rfl⟩
+      · simp only [hz, not_false_eq_true, if_true] at h
         cases h
-        have hp := (checkShape_ok [n, m] hcs).2
-        exact ⟨n, m, b, Or.inl rfl, hp n (by simp), hp m (by simp), rfl, rfl⟩
+  · cases hcs : checkShape (n :: m :: k :: rest) <;> rw [hcs] at h <;> simp at h
+
+/-- **after the repair of /repo** (`fix: CylindricalSymGrid accepted reversed bounds_z`): an accepted call has
+`bounds_z` in increasing order - the hypothesis `Ctor.Valid` of `constructed_centres_and_dx` is now implied by
+acceptance for the cylindrical grid ... -/
+theorem construct_cylindrical_bounds_z (radius : Radius K) (zlo zhi : K) (shape : List ℕ) (pz : Bool) (g : Grid K)
+    (h : Grid.construct (.cylindrical radius zlo zhi shape pz) = .ok g) : zlo < zhi := by
+  by_contra hz
+  simp only [Grid.construct, bind, Except.bind] at h
+  rcases shape with _ | ⟨n, _ | ⟨m, _ | ⟨k, rest⟩⟩⟩
+  · cases hcs : checkShape ([] : List ℕ) <;> rw [hcs] at h <;> simp at h
+  · cases hcs : checkShape [n] with
+    | error e => rw [hcs] at h; cases h
+    | ok u =>
+      rw [hcs] at h
+      simp only [hz, not_false_eq_true, if_true] at h
+      cases h
+  · cases hcs : checkShape [n, m] with
+    | error e => rw [hcs] at h; cases h
+    | ok u =>
+      rw [hcs] at h
+      simp only [hz, not_false_eq_true, if_true] at h
+      cases h
   · cases hcs : checkShape (n :: m :: k :: rest) <;> rw [hcs] at h <;> simp at h
 
 /-- **which grid every constructor call creates** (class and described axes in terms of the
@@ -279,6 +310,11 @@ def Ctor.Valid : Ctor K → Prop
   | .cartesian bounds _ _ => ∀ b ∈ bounds, b.1 ≠ b.2
   | .cylindrical _ zlo zhi _ _ => zlo < zhi
   | _ => True
+
+theorem construct_cylindrical_valid (radius : Radius K) (zlo zhi : K) (shape : List ℕ) (pz : Bool) (g : Grid K)
+    (h : Grid.construct (.cylindrical radius zlo zhi shape pz) = .ok g) :
+    (Ctor.cylindrical radius zlo zhi shape pz).Valid :=
+  construct_cylindrical_bounds_z radius zlo zhi shape pz g h
 
 /-- every accepted constructor call with valid arguments creates a well-formed grid (at least one
 cell and `lo < hi` on every axis, `0 ≤ r_inner`, the class's number of axes) -/
@@ -583,18 +619,11 @@ example : (exCyl : Grid ℚ).containsGrid [2, 10] = true ∧ (exCyl : Grid ℚ).
 example : (exCart : Grid ℚ).randomPointCart (1/4) [1/2, 1] = [1, 63/4] := by decide +kernel
 example : (exCyl : Grid ℚ).randomRadialDraw (1/2) true [1/2, 1/4] = [17/4, 11/4] := by decide +kernel
 
-/-- **witness of a deviation in /repo** (reported, patch in notes/proposed_fixes/C12-cylinder-reversed-bounds-z.diff):
-`CylindricalSymGrid(1, (1, 0), (2, 2))` - `bounds_z` reversed - is accepted by the constructor (unlike
-`CartesianGrid`, which flips reversed bounds, and unlike the radius, which is validated): the `z` axis has
-`lo = 1 > hi = 0`, the spacing is `-1/2`, the cell volumes and the volume are negative (`-pi`, here with
-`pi := 1`).  This is exactly the case the hypothesis `Ctor.Valid` of `constructed_centres_and_dx` excludes. -/
-theorem cylinder_reversed_bounds_z_accepted :
-    constructView (.cylindrical (.outer (1 : ℚ)) 1 0 [2, 2] false)
-      = .ok (.cylindrical, [(0, 1, 2, false), (1, 0, 2, false)]) ∧
-    (⟨.cylindrical, [⟨0, 1, 2, false⟩, ⟨1, 0, 2, false⟩]⟩ : Grid ℚ).discretization = [1/2, -1/2] ∧
-    (⟨.cylindrical, [⟨0, 1, 2, false⟩, ⟨1, 0, 2, false⟩]⟩ : Grid ℚ).volume 1 = -1 ∧
-    ¬ (Ctor.cylindrical (.outer (1 : ℚ)) 1 0 [2, 2] false).Valid := by
-  refine ⟨by decide +kernel, by decide +kernel, by decide +kernel, ?_⟩
-  simp [Ctor.Valid]
+/-- the call that was the witness of a deviation of /repo (reversed `bounds_z` accepted; repaired by
+`fix: CylindricalSymGrid accepted reversed bounds_z`, see `construct_cylindrical_bounds_z`), `CylindricalSymGrid(1, (1, 0), (2, 2))`, is refused with a
+`ValueError` (before the repair it created a grid with spacing `-1/2` along `z` and the volume `-pi`) -/
+theorem cylinder_reversed_bounds_z_rejected :
+    constructView (.cylindrical (.outer (1 : ℚ)) 1 0 [2, 2] false) = .error .value := by
+  decide +kernel
 
 end PdeVerif.Grids
